@@ -19,14 +19,29 @@ META = dict(
     level="model_checking",
     encoded=["input.ndbc_ascii.construct_spectra", "input.ndbc._construct_spectra (through from_ndbc)", "construct.direction.cartwright (as used by the Spotter and Datawell readers)", "core.swan.SwanSpecFile.__init__/_read_header/read (FACTOR, ZERO, NODATA, dirmap, E2V, to_nautical)", "input.swan.read_swan"],
     encoded_files=["wavespectra/input/ndbc_ascii.py", "wavespectra/input/ndbc.py", "wavespectra/construct/direction.py", "wavespectra/core/swan.py", "wavespectra/input/swan.py", "wavespectra/core/utils.py"],
-    bounds="NDBC reconstruction: 1-2 records x 2-3 frequencies x uniform direction grids of 4-6 bins, frequency spectrum, r1, r2, alpha1, alpha2 symbolic; SWAN ASCII files produced by an independent reference encoder: 1-2 times x 1-3 locations x 2 frequencies x 3 directions, FACTOR and every table entry symbolic (they reach the reader as tokens in a real file), ZERO / NODATA / FACTOR blocks in every order, VaDens and EnDens units, NDIR and CDIR direction headers in sorted and unsorted order",
+    bounds="NDBC reconstruction: 1-2 records x 2-3 frequencies x uniform full-circle direction grids of 4-8 bins supplied in ascending, descending, seam-crossing (starting at 180) and shuffled storage order, frequency spectrum, r1, r2, alpha1, alpha2 symbolic; SWAN ASCII files produced by an independent reference encoder: 1-2 times x 1-3 locations x 2 frequencies x 3 directions, FACTOR and every table entry symbolic (they reach the reader as tokens in a real file), ZERO / NODATA / FACTOR blocks in every order, VaDens and EnDens units, NDIR and CDIR direction headers in sorted and unsorted order",
     outside="PARTIAL CLAIM: header, column and time parsing of TRIAXYS, NDBC ASCII, Spotter (CSV/JSON), Datawell SPT, Obscape CSV, WW3 station and XWaves files is NOT encoded (pandas/regex/datetime parsing of whole files realises every symbolic value; symbolic strings of file length are far beyond the reach of the string solvers available here); for those readers only the numerical kernels listed above are claimed",
     assumptions=["directional moments r1, r2 in [0,1], alpha1, alpha2 in [0,360)", "SWAN table entries are finite reals, FACTOR > 0"],
 )
 
 
-@harness(P, quick=grid(nd=[4, 6], nrec=[1]), thorough=grid(nd=[5, 8], nrec=[2]))
-def ndbc_ascii_reconstruction(env, nd, nrec):
+def _store(dirs, store):
+    """Storage orders of a user-supplied direction grid (`dirs=` of read_ndbc_ascii): the grid is the same set of bins."""
+    n = len(dirs)
+    if store == "asc":
+        return dirs
+    if store == "desc":
+        return dirs[::-1].copy()
+    if store == "seam":       # starts at 180 and runs across 0/360
+        return np.roll(dirs, -(n // 2))
+    if store == "shuffled":   # evens, then odds
+        return np.concatenate([dirs[0::2], dirs[1::2]])
+    raise ValueError(store)
+
+
+@harness(P, quick=grid(nd=[4, 6], nrec=[1], store=["asc", "seam", "shuffled"]) + grid(nd=[4], nrec=[1], store=["desc"]),
+         thorough=grid(nd=[5, 8], nrec=[2], store=["asc", "seam", "desc", "shuffled"]))
+def ndbc_ascii_reconstruction(env, nd, nrec, store="asc"):
     """construct_spectra: the directional spectrum built from E(f), r1, r2, alpha1, alpha2 integrates over direction to E(f)."""
     from wavespectra.input.ndbc_ascii import construct_spectra
     nf = 2
@@ -36,7 +51,7 @@ def ndbc_ascii_reconstruction(env, nd, nrec):
     ef = mk("ef", 0.0, 100.0)
     a1, a2 = mk("alpha1", 0.0, 360.0), mk("alpha2", 0.0, 360.0)
     r1, r2 = mk("r1", 0.0, 1.0), mk("r2", 0.0, 1.0)
-    dirs = np.arange(0.0, 360.0, 360.0 / nd)
+    dirs = _store(np.arange(0.0, 360.0, 360.0 / nd), store)
     S2 = construct_spectra(ef, a1, a2, r1, r2, dirs)
     dd = 360.0 / nd
     conds = []
